@@ -44,7 +44,11 @@ class PumpCondition(object):
         self.pair.waits += 1
         if self.loops and self.pair.waits > 1:
             raise Unmodelled("wait() loop without progress")
-        self.pair.pump()
+        hook, self.pair.wait_hook = self.pair.wait_hook, None
+        if hook is not None:
+            hook()          # the application at the other controller acts while this call waits
+        else:
+            self.pair.pump()
 
     def notify(self, n=1):
         pass
@@ -92,6 +96,7 @@ class Pair(object):
             self.ctl[x] = c
         self.wire = []
         self.waits = 0
+        self.wait_hook = None   # what the peer application does during the next wait()
         self.observer = None    # callback(sender side, receiver side, wire PDU, ids of sockets whose queue grew)
 
     # ------------------------------------------------------------ link
@@ -128,11 +133,13 @@ class Pair(object):
         return [len(s.recv_queue) for s in self.socks[y]]
 
     def pump(self):
+        """rounds A->B, B->A until nothing moves; True when the link went quiet"""
         for _ in range(PUMP_ROUNDS):
             m1 = self.xfer("A")
             m2 = self.xfer("B")
             if not m1 and not m2:
-                break
+                return True
+        return False
 
     # ------------------------------------------------------------ sockets
     def adopt(self, x, s):
@@ -192,6 +199,35 @@ class Pair(object):
                 raise Unmodelled("ldl connect by name")
             c.connect(s, int(t[4]) if t[3] == "a" else _unhex(t[4]))
             return "ok"
+        if k == "K":
+            # connect while the application at the other controller accepts on its socket t[-1]
+            if self.kind(s) != "dlc":
+                raise Unmodelled("served connect on non-dlc")
+            y = "B" if x == "A" else "A"
+            listener = self.socks[y][int(t[5])]
+            acc = ["-"]
+
+            def hook():
+                self.pump()
+                try:
+                    n = self.ctl[y].accept(listener)
+                    acc[0] = "ok sock %d %s %s" % (self.adopt(y, n), opt(n.addr), opt(n.peer))
+                except Unmodelled:
+                    raise
+                except Exception as e:  # noqa
+                    acc[0] = "exc " + exc_name(e)
+                self.pump()
+            self.wait_hook = hook
+            try:
+                c.connect(s, int(t[4]) if t[3] == "a" else _unhex(t[4]))
+                res = "ok"
+            except Unmodelled:
+                raise
+            except Exception as e:  # noqa
+                res = "exc " + exc_name(e)
+            finally:
+                self.wait_hook = None
+            return res + " & " + acc[0]
         if k == "A":
             n = c.accept(s)
             return "ok sock %d %s %s" % (self.adopt(x, n), opt(n.addr), opt(n.peer))
